@@ -176,4 +176,17 @@ Section SGP.
     intros H. destruct all as [|p r]; [contradiction|]. unfold dups. cbn [dups_from]. rewrite n_kept_cons.
     unfold dup_of. cbn [Nat.leb andb]. lia.
   Qed.
+  (** node i*n_kept + k of the mesh is shell node k on layer i *)
+  Theorem sphere_nodes_layer level nz (inner outer : F) i k d0 :
+    i <= nz -> k < n_kept (sphere_dups level outer) ->
+    nth (i * n_kept (sphere_dups level outer) + k) (sphere_nodes level nz inner outer) d0 =
+    nth k (layer_nodes inner outer nz (kept_points (all_nodes level) (sphere_dups level outer)) i) d0.
+  Proof.
+    intros Hi Hk. unfold sphere_nodes. fold (sphere_dups level outer).
+    rewrite (nth_flat_map_const _ (n_kept (sphere_dups level outer)) _ d0 0).
+    - rewrite seq_nth by lia. reflexivity.
+    - intros x. unfold layer_nodes. rewrite map_length. apply kept_points_length. unfold sphere_dups. rewrite dups_length. reflexivity.
+    - exact Hk.
+    - rewrite seq_length. lia.
+  Qed.
 End SGP.
